@@ -70,6 +70,47 @@ pub fn run() {
             );
             continue;
         }
+        if a.get("op").map(|s| s == "forkaccept").unwrap_or(false) {
+            // the server is created in one process and accepted (or dropped unused) in a forked child - the hand-to-a-worker pattern:
+            // once accept has returned there, or the server was dropped there, nothing created for the rendezvous may remain
+            let unused = a.get("unused").map(|s| s == "1").unwrap_or(false);
+            let t0 = tmp_entries();
+            let (server, name) = IpcOneShotServer::<M>::new().unwrap();
+            let pid = unsafe { libc::fork() };
+            if pid == 0 {
+                let code = if unused {
+                    drop(server);
+                    0
+                } else {
+                    let name2 = name.clone();
+                    let th = std::thread::spawn(move || {
+                        let _ = client(&name2, &[10, 5000, 10], 0, 3, None, None);
+                    });
+                    let r = match server.accept() {
+                        Ok((rx, first)) => {
+                            let mut n = 1;
+                            while rx.try_recv_timeout(Duration::from_secs(3)).is_ok() {
+                                n += 1;
+                            }
+                            if first.seq == 0 && n == 3 { 0 } else { 2 }
+                        },
+                        Err(_) => 1,
+                    };
+                    let _ = th.join();
+                    r
+                };
+                unsafe { libc::_exit(code) };
+            }
+            // the creating process never uses its copy of the object
+            std::mem::forget(server);
+            let mut st = 0;
+            unsafe { libc::waitpid(pid, &mut st, 0) };
+            let child = if libc::WIFEXITED(st) { libc::WEXITSTATUS(st) } else { -1 };
+            let gone = !std::path::Path::new(&name).exists();
+            let dir_gone = std::path::Path::new(&name).parent().map(|p| !p.exists()).unwrap_or(true);
+            println!("{}", json!({"kind":"forkaccept","id":id,"unused":unused,"child":child,"gone":gone,"dir_gone":dir_gone,"tmp_before":t0,"tmp_after":tmp_entries()}));
+            continue;
+        }
         if a.get("op").map(|s| s == "noshow").unwrap_or(false) {
             // a client that connects and goes away without ever sending: accept must return (an error), and nothing
             // created for the rendezvous - listener, connection, socket file, temp dir - may remain afterwards
